@@ -327,7 +327,7 @@ func varyOps(r *Rng, groups [][]jop) ([][]jop, string) {
 	if len(g) == 0 {
 		return g, "none"
 	}
-	switch r.Intn(8) {
+	switch r.Intn(9) {
 	case 0: // changed value in a matching test/remove pair
 		gi := r.Intn(len(g))
 		for j := 0; j+1 < len(g[gi]); j++ {
@@ -381,6 +381,28 @@ func varyOps(r *Rng, groups [][]jop) ([][]jop, string) {
 		}
 		g[gi] = ng
 		return g, "context-dropped"
+	case 8: // the same hunk twice in a row (two elements on one path, the second with its own context tests;
+		// optionally without its before test): the second must be evaluated on the document the first produced
+		gi := r.Intn(len(g))
+		dup := append([]jop{}, g[gi]...)
+		if r.Chance(1, 2) && len(dup) > 1 && dup[0].Op == "test" && !(dup[1].Op == "remove" && dup[1].Path == dup[0].Path) {
+			// drop the before-context test when there are two context tests (the first one is the before test)
+			if len(dup) > 2 && dup[1].Op == "test" && !(dup[2].Op == "remove" && dup[2].Path == dup[1].Path) {
+				dup = dup[1:]
+			}
+		}
+		if r.Chance(1, 2) {
+			for j := range dup {
+				if dup[j].Op == "add" {
+					dup[j].Value = json.RawMessage(`"again"`)
+				}
+			}
+		}
+		ng := make([][]jop, 0, len(g)+1)
+		ng = append(ng, g[:gi+1]...)
+		ng = append(ng, dup)
+		ng = append(ng, g[gi+1:]...)
+		return ng, "hunk-repeated"
 	case 7: // a context test that is NOT adjacent to the edit any more: jd must not read it as relative context
 		gi := r.Intn(len(g))
 		for j := 0; j < len(g[gi]); j++ {
